@@ -18,6 +18,9 @@ def run(ctx: Ctx, chk) -> None:
     eea_listen(ctx, chk, prune=True)
     chk.run_rule(hier, ctx)
     chk.run_rule(state1, ctx)
+    from . import c17 as _c17
+
+    chk.run_rule(lambda c, k: _c17.resync1(c, k, "RESYNC-1"), ctx)
 
 
 def thorough(ctx: Ctx, chk) -> None:
